@@ -108,17 +108,11 @@ pub fn print_js<'a>(
     let final_source_map = chain_source_maps(source_map, &original_source_map.source, config)
         .unwrap_or_else(|| String::from(source_map));
 
-    let final_code = if config.print_comments {
-        match &original_source_map.source_map_comment {
-            Some(comment) => {
-                debug!("Replacing original sourceMappingUrl comment: {comment}");
-                code.replace(comment.as_str(), "").into()
-            }
-            _ => code.into(),
-        }
-    } else {
-        code.into()
-    };
+    // the original sourceMappingURL comment is not in the code: extract_source_map removed it before printing
+    if let Some(comment) = &original_source_map.source_map_comment {
+        debug!("Original sourceMappingUrl comment superseded: {comment}");
+    }
+    let final_code: Cow<'a, str> = code.into();
 
     if final_source_map.is_empty() {
         debug!("No sourcemap available");
@@ -306,6 +300,7 @@ fn extract_source_map<R: Read>(
     // the comments map has no stable iteration order: with several sourceMappingURL comments, the one
     // closest to the end of the file is the effective one
     let mut last_comment_pos = None;
+    let mut last_comment_key = None;
     for trailing in comments.trailing.iter() {
         for comment in trailing.iter() {
             let trim_comment = comment.text.trim();
@@ -313,6 +308,7 @@ fn extract_source_map<R: Read>(
                 && last_comment_pos.map_or(true, |pos| pos < comment.span.lo)
             {
                 last_comment_pos = Some(comment.span.lo);
+                last_comment_key = Some(*trailing.key());
                 source_map_comment = Some(String::from(comment.text.as_str()));
                 let url = trim_comment.get(SOURCE_MAP_URL.len()..).unwrap();
                 source = decode_data_url(url)
@@ -336,6 +332,14 @@ fn extract_source_map<R: Read>(
                         _ => None,
                     });
             }
+        }
+    }
+
+    // the original comment is superseded by the new inlined source map: take it out of the comments to print
+    // (removing its text from the printed code would also alter any string or comment that looks like it)
+    if let (Some(key), Some(pos)) = (last_comment_key, last_comment_pos) {
+        if let Some(mut trailing) = comments.trailing.get_mut(&key) {
+            trailing.retain(|comment| comment.span.lo != pos);
         }
     }
 
